@@ -437,3 +437,64 @@ package reftable
 //@   ensures result1 == nil ==> (result0.hashSize == 20 || result0.hashSize == 32) && (result0.version == 1 || result0.version == 2)
 //@   ensures result1 == nil ==> result0.size < 9223372036854775808
 //@   ensures result1 == nil ==> result0.objectIDLen >= 0 && result0.objectIDLen < 32
+
+// ---------------------------------------------------------------------------------------------
+// stack.go: the auto-compaction chooser (C17)
+// ---------------------------------------------------------------------------------------------
+
+// log2spec(s) = floor(log2(s)) for s >= 1 and 0 for s == 0: the power-of-two size class of the statement.
+//@ spec log2spec(s uint64) int = (s < 2 ? 0 : (s < 4 ? 1 : (s < 8 ? 2 : (s < 16 ? 3 : (s < 32 ? 4 : (s < 64 ? 5 : (s < 128 ? 6 : (s < 256 ? 7 : (s < 512 ? 8 : (s < 1024 ? 9 : (s < 2048 ? 10 : (s < 4096 ? 11 : (s < 8192 ? 12 : (s < 16384 ? 13 : (s < 32768 ? 14 : (s < 65536 ? 15 : (s < 131072 ? 16 : (s < 262144 ? 17 : (s < 524288 ? 18 : (s < 1048576 ? 19 : (s < 2097152 ? 20 : (s < 4194304 ? 21 : (s < 8388608 ? 22 : (s < 16777216 ? 23 : (s < 33554432 ? 24 : (s < 67108864 ? 25 : (s < 134217728 ? 26 : (s < 268435456 ? 27 : (s < 536870912 ? 28 : (s < 1073741824 ? 29 : (s < 2147483648 ? 30 : (s < 4294967296 ? 31 : (s < 8589934592 ? 32 : (s < 17179869184 ? 33 : (s < 34359738368 ? 34 : (s < 68719476736 ? 35 : (s < 137438953472 ? 36 : (s < 274877906944 ? 37 : (s < 549755813888 ? 38 : (s < 1099511627776 ? 39 : (s < 2199023255552 ? 40 : (s < 4398046511104 ? 41 : (s < 8796093022208 ? 42 : (s < 17592186044416 ? 43 : (s < 35184372088832 ? 44 : (s < 70368744177664 ? 45 : (s < 140737488355328 ? 46 : (s < 281474976710656 ? 47 : (s < 562949953421312 ? 48 : (s < 1125899906842624 ? 49 : (s < 2251799813685248 ? 50 : (s < 4503599627370496 ? 51 : (s < 9007199254740992 ? 52 : (s < 18014398509481984 ? 53 : (s < 36028797018963968 ? 54 : (s < 72057594037927936 ? 55 : (s < 144115188075855872 ? 56 : (s < 288230376151711744 ? 57 : (s < 576460752303423488 ? 58 : (s < 1152921504606846976 ? 59 : (s < 2305843009213693952 ? 60 : (s < 4611686018427387904 ? 61 : (s < 9223372036854775808 ? 62 : 63)))))))))))))))))))))))))))))))))))))))))))))))))))))))))))))))
+// sizeClass is log2spec behind an opaque symbol (keeps the 64-way case split out of quantified formulas).
+//@ spec sizeClass(s uint64) int
+//@ axiom sizeClassDef: forall s uint64 :: sizeClass(s) == log2spec(s) && 0 <= sizeClass(s) && sizeClass(s) <= 63
+
+//@ func log2
+//@   props C17
+//@   nopanic
+//@   pure
+//@   ensures result == log2spec(sz)
+//@   ensures result == sizeClass(sz)
+//@   ensures 0 <= result && result <= 63
+//@   loop 1 invariant 0 <= l && l <= 64 && (sz > 0 ==> l + log2spec(sz) == log2spec(old(sz))) && (sz == 0 ==> l == log2spec(old(sz)) + 1) && old(sz) > 0
+//@   loop 1 decreases sz
+
+//@ spec sizesOK(sizes []uint64) bool = len(sizes) < 1048576 && (forall i int :: 0 <= i && i < len(sizes) ==> 1 <= sizes[i] && sizes[i] < 1099511627776)
+//@ spec sameClass(sizes []uint64, i int) bool = sizeClass(sizes[i]) == sizeClass(sizes[i+1])
+
+// The result partitions [0,n) into maximal runs of one size class (for n == 0: the single zero segment).
+//@ func sizesToSegments
+//@   props C17
+//@   requires sizesOK(sizes)
+//@   nopanic
+//@   modifies nothing
+//@   ensures len(result) >= 1
+//@   ensures[bounds] len(sizes) > 0 ==> (forall j int :: 0 <= j && j < len(result) ==> 0 <= result[j].start && result[j].start < result[j].end && result[j].end <= len(sizes))
+//@   ensures[empty] len(sizes) == 0 ==> len(result) == 1 && result[0].start == 0 && result[0].end == 0
+//@   ensures[uniform] forall j int, i int :: 0 <= j && j < len(result) && result[j].start <= i && i < result[j].end ==> sizeClass(sizes[i]) == result[j].log
+//@   ensures[covers] forall i int :: 0 <= i && i + 1 < len(sizes) && sameClass(sizes, i) ==> (exists j int :: 0 <= j && j < len(result) && result[j].start <= i && i + 1 < result[j].end)
+//@   loop 1 invariant -1 <= rangeindex && rangeindex < len(sizes) && len(res) >= 0 && (res == nil || fresh(res))
+//@   loop 1 invariant rangeindex == -1 ==> cur.start == 0 && cur.end == 0 && cur.bytes == 0 && cur.log == 0 && len(res) == 0
+//@   loop 1 invariant rangeindex >= 0 ==> 0 <= cur.start && cur.start <= rangeindex && cur.end == rangeindex + 1 && 1 <= cur.bytes && cur.bytes <= (rangeindex + 1 - cur.start) * 1099511627776
+//@   loop 1 invariant forall j int :: 0 <= j && j < len(res) ==> 0 <= res[j].start && res[j].start < res[j].end && res[j].end <= cur.start
+//@   loop 1 invariant forall j int, i int :: 0 <= j && j < len(res) && res[j].start <= i && i < res[j].end ==> sizeClass(sizes[i]) == res[j].log
+//@   loop 1 invariant forall i int :: cur.start <= i && i <= rangeindex ==> sizeClass(sizes[i]) == cur.log
+//@   loop 1 invariant forall i int :: 0 <= i && i + 1 <= rangeindex && sameClass(sizes, i) ==> (cur.start <= i || (exists j int :: 0 <= j && j < len(res) && res[j].start <= i && i + 1 < res[j].end))
+//@   loop 1 decreases len(sizes) - rangeindex
+
+// From the statement: nothing to do exactly when no two adjacent tables fall in the same size class;
+// otherwise a contiguous range of at least two tables inside the stack.
+//@ func suggestCompactionSegment
+//@   props C17
+//@   requires sizesOK(sizes)
+//@   nopanic
+//@   modifies nothing
+//@   ensures[range] result != nil ==> 0 <= result.start && result.start + 2 <= result.end && result.end <= len(sizes)
+//@   ensures[nil-only-if] result == nil ==> (forall i int :: 0 <= i && i + 1 < len(sizes) ==> !sameClass(sizes, i))
+//@   ensures[nil-if] (forall i int :: 0 <= i && i + 1 < len(sizes) ==> !sameClass(sizes, i)) ==> result == nil
+//@   loop 1 invariant -1 <= rangeindex && rangeindex < len(segs)
+//@   loop 1 invariant minSeg.end - minSeg.start == 0 || (0 <= minSeg.start && minSeg.start + 2 <= minSeg.end && minSeg.end <= len(sizes) && sameClass(sizes, minSeg.start))
+//@   loop 1 invariant minSeg.end - minSeg.start == 0 ==> (len(sizes) == 0 || (minSeg.log == 64 && (forall j int :: 0 <= j && j <= rangeindex ==> segs[j].end - segs[j].start == 1)))
+//@   loop 1 decreases len(segs) - rangeindex
+//@   loop 2 invariant 0 <= minSeg.start && minSeg.start + 2 <= minSeg.end && minSeg.end <= len(sizes)
+//@   loop 2 invariant exists i int :: 0 <= i && i + 1 < len(sizes) && sameClass(sizes, i)
+//@   loop 2 decreases minSeg.start
